@@ -326,6 +326,7 @@ class GenOpts:
     mixin: bool = False
     mixin_base: str = "DataClassDictMixin"
     coq_only: bool = False        # stay inside TyModel.sty
+    unpacked: bool = True         # tuples with an unpacked segment (Tuple[a, Unpack[Tuple[b, ...]], c])
     configs: bool = False         # aliases + serialize_by_alias / allow_deserialization_not_by_alias / forbid_extra_keys
     spellings: bool = True        # PEP 604 / None-first unions, builtin generics, Annotated wrappers, Final fields
 
@@ -436,7 +437,7 @@ class SchemaGen:
         if self.o.classes:
             choices += ["data", "data"]
         if self.o.named:
-            choices += ["nt", "td", "tupleu"]
+            choices += ["nt", "td"] + (["tupleu"] if self.o.unpacked else [])
         if self.o.unions:
             choices += ["union"]
         if self.o.literals:
